@@ -13,7 +13,10 @@
 // write arrives SetWriteApprovalTimeout is set so that its timer expires at slot*T after the
 // start of the history (slot = rank of the write's Expire operation; 0 = ten minutes, never
 // within the history).  `Expire` waits until the body of that timer stands at its first hook
-// (verifApprovalTimer phase 0) or the deadline plus a grace period has passed without it;
+// (verifApprovalTimer phase 0); that the timer does NOT fire is decided without a timing
+// assumption: the runner uses one P (GOMAXPROCS(1)), where the runtime runs expired timers in
+// order of expiry, so once a sentinel timer later than the write's latest possible expiry has
+// fired and the runner has yielded, a body that has not reached its hook never will.
 // `Fire` lets the body run.  So a verdict can be looked up before the timeout and committed
 // after the error result was sent, a timer can expire and be overtaken by a verdict or by the
 // removal of the connection, etc.: the operation list is the schedule, on the real code as in
@@ -64,15 +67,15 @@ const (
 )
 
 var (
-	baseSlot  = 4 * time.Millisecond // slot length T
-	instances int64
-	statsMu   sync.Mutex
-	retries   int
-	unreal    int
-	unrealWhy = map[string]int{}
+	baseSlot    = 4 * time.Millisecond // slot length T
+	instances   int64
+	statsMu     sync.Mutex
+	retries     int
+	unreal      int
+	unrealWhy   = map[string]int{}
 	outcomeHist = map[string]int{} // what the implementation did, per kind of step
-	expWaits  int
-	maxLate   time.Duration
+	expWaits    int
+	maxLate     time.Duration
 )
 
 type wid struct{ p, c int64 }
@@ -152,7 +155,7 @@ type world struct {
 	verd    map[vid]bool
 	gone    map[int64]bool
 	threads map[vid]*vthread
-	last    *wid // the write applied last according to the events
+	last    *wid  // the write applied last according to the events
 	bound   int64 // the peer holding the binding of the server feature (-1 none)
 }
 
